@@ -458,7 +458,7 @@ fn op_json(op: &Op) -> J {
 	json!(format!("{op:?}"))
 }
 
-fn ops_json(ops: &[Op]) -> J {
+pub fn ops_json(ops: &[Op]) -> J {
 	json!({ "ops": ops.iter().map(enc_op).collect::<Vec<_>>(), "shown": ops.iter().map(|o| format!("{o:?}")).collect::<Vec<_>>() })
 }
 
@@ -497,7 +497,7 @@ fn enc_op(op: &Op) -> J {
 	}
 }
 
-fn dec_op(j: &J) -> Op {
+pub fn dec_op(j: &J) -> Op {
 	use crate::refvalue::dec_str as ds;
 	let u = |x: &J| x.as_u64().unwrap() as u32;
 	let m = |x: &J| MODES[x.as_u64().unwrap() as usize];
